@@ -300,3 +300,10 @@ pub fn agree_on_fn_handover(a: &Rec, spec: &Rec) -> bool {
     while i < spec.n as usize && i < CAP { if i > 0 && spec.ev[i].kind() == K_HANDOVER && is_user_fn_ev(&spec.ev[i - 1]) { return false; } i += 1; }
     true
 }
+
+/// some event of the keep-going run is selected by `sel`
+pub fn any_ev(spec: &Rec, sel: fn(&Evt) -> bool) -> bool {
+    let mut i = 0;
+    while i < spec.n as usize && i < CAP { if sel(&spec.ev[i]) { return true; } i += 1; }
+    false
+}
